@@ -325,6 +325,16 @@ def thompson (lowest : Bool) (cnt : Nat → Nat) (val : Nat → Rat) (n : Nat) :
 def mcTable (n : Nat) (cnt : Nat → Nat) : Nat → Rat := fun a => (cnt a : Rat) / sumTo n (fun i => (cnt i : Rat))
 def mcQuery (trials selected : Nat) : Rat := (selected : Rat) / (trials : Rat)
 
+/-! ## Factored (joint-action) policies: `Factored::Bandit::EpsilonPolicy::getActionProbability` =
+    `(1 - eps) * wrapped(a) + eps * (1 / factorSpace(A))` over a deterministic wrapped policy that plays `g`
+    (`eps = 0`: QGreedyPolicy / SingleActionPolicy / LLRPolicy themselves, `eps = 1`: RandomPolicy). `N` = size of the joint space. -/
+
+def jointEps (eps : Rat) (N : Nat) (g a : List Nat) : Rat := (1 - eps) * (if a = g then 1 else 0) + eps * (1 / (N : Rat))
+
+/-- `recommendAction` of TopTwoThompson / T3C: Eigen `maxCoeff(&idx)` — first index of the maximum -/
+def recommend (mean : Nat → Rat) (n : Nat) : Nat :=
+  (List.range n).foldl (fun b i => if mean b < mean i then i else b) 0
+
 /-- `std::find` on the list of allowed actions: index of the first occurrence -/
 def findIdx (a : Nat) : List Nat → Option Nat
   | [] => none
